@@ -215,11 +215,41 @@ def run_neg(c):
     return [Fail("NO_RAISE", f"crossratio:negative:{c['form']}:d{d}", repr(r))]
 
 
+# ------------------------------------------------------------------------------------------- clustered points of P^1
+@st.composite
+def cluster_case(draw, tier="quick"):
+    offs = draw(st.permutations([0, 1, 2, 3, 4, 6, 9]))[:4]
+    return {"N": draw(st.sampled_from([0, 10, 1000, 10**5, 10**6, -(10**6)])), "offs": [int(o) for o in offs], "w": draw(st.sampled_from([1, 1, 2])),
+            "coll": draw(st.booleans())}
+
+
+def run_cluster(c):
+    """four different integer points N + o_i of the projective line: the determinants are exact in float64, the cross ratio
+    only depends on the offsets (translation invariance) - also when the points are close together relative to |N|"""
+    N, offs, w = c["N"], c["offs"], c["w"]
+    if len(set(offs)) < 4:
+        raise Skip("equal offsets")
+    pts = [Point(np.array([float((N + o) * w), float(w)])) for o in offs]
+    pars = [[Fraction(o), Fraction(1)] for o in offs]
+    num, den = cr_exact(pars)
+    if c["coll"]:
+        pts = [G.PointCollection(np.stack([p.array, p.array])) for p in pts]
+    r, f = call("crossratio:cluster1", crossratio, *pts)
+    if f:
+        return [f]
+    ck = Checker()
+    for v in np.atleast_1d(r).ravel():
+        ck.check(C.p1_eq(complex(v), (complex(num), complex(den)), 1e-9), "crossratio:points1:clustered", (complex(v), str(num), str(den), N))
+    return ck.result()
+
+
 LAWS = [
     Law("crossratio", lambda tier: cr_case(tier), run_cr, cr_nontrivial, cr_labels, {"quick": 3000, "thorough": 60000},
         "closed-form value for every form (points 1D/2D/3D, concurrent lines 2D/3D, from_point, coaxial planes), argument orders "
         "abcd/badc/cdab/abdc/acbd (the symmetry relations), invariance under a projective map", shard=400,
         mandatory=("special-vertex", "endpoint-parameter", "transformed", "lines2", "planes3", "points1")),
+    Law("crossratio_clustered_1d", lambda tier: cluster_case(tier), run_cluster, lambda c: abs(c["N"]) >= 1000, lambda c: [f"N={c['N']}"], {"quick": 400, "thorough": 5000},
+        "four integer points N+o_i of P^1 (|N| up to 1e6, exact determinants): value depends on the offsets only", shard=400),
     Law("harmonic_set", lambda tier: hs_case(tier), run_hs, lambda c: True, lambda c: [f"d{c['d']}", "coll" if c["coll"] else "single"],
         {"quick": 1000, "thorough": 20000}, "harmonic_set(a,b,c) equals the exactly computed harmonic conjugate", shard=400),
     Law("negative", lambda tier: neg_case(tier), run_neg, lambda c: True, lambda c: [c["form"], f"d{c['d']}"], {"quick": 400, "thorough": 6000},
